@@ -17,6 +17,7 @@ from .rt import _Return, _Break, _Continue
 from .values import *
 from .ops import OpsMixin
 from .builtins_model import BuiltinsMixin, make_builtin_classes
+from .stdlib_model import StdlibMixin, _NO
 
 
 class PathLimit(Exception):
@@ -43,9 +44,9 @@ class Frame:
         return q
 
 
-class Interp(OpsMixin, BuiltinsMixin):
+class Interp(OpsMixin, BuiltinsMixin, StdlibMixin):
     MAX_LOOP = 5000
-    MAX_DEPTH = 40
+    MAX_DEPTH = 120
 
     def __init__(self, repo_root, package_dirs=("pyscsi",)):
         self.repo_root = repo_root
@@ -102,7 +103,8 @@ class Interp(OpsMixin, BuiltinsMixin):
             return m
         with open(path, "r", encoding="utf-8") as f:
             src = f.read()
-        tree = ast.parse(src, filename=path)
+        from .desugar import rewrite
+        tree = rewrite(ast.parse(src, filename=path))
         m = ModuleVal(name, path=path, tree=tree, source=src)
         self.modules[name] = m
         m.state = "running"
@@ -430,8 +432,11 @@ class Interp(OpsMixin, BuiltinsMixin):
                 return f
             if name.split(".")[0] == "typing" or name in ("abc.abstractmethod",):
                 return f
+            r = self.stdlib_call(dec, [f], {}, node, frame)
+            if r is not _NO:
+                return r
             raise AnalysisError("unmodelled-decorator", "@%s at %s" % (ast.unparse(node), frame.where(node)))
-        if isinstance(dec, (FuncVal, BoundMethod, Builtin, ClassVal)):
+        if isinstance(dec, (FuncVal, BoundMethod, Builtin, ClassVal, PartialVal)):
             return self.call(dec, [f], {}, node, frame)
         if isinstance(dec, Unknown):
             raise AnalysisError("unmodelled-decorator", "@%s at %s (%s)" % (ast.unparse(node), frame.where(node), dec.reason))
@@ -439,6 +444,16 @@ class Interp(OpsMixin, BuiltinsMixin):
 
     def st_ClassDef(self, s, frame):
         bases = [self.eval(b, frame) for b in s.bases]
+        std_kind, bases = self.stdlib_bases(s, bases, frame)
+        for b in bases:
+            if isinstance(b, External):
+                top = b.name.split(".")[0]
+                if b.name in ("abc.ABC", "typing.Generic", "typing.Protocol") or b.name.startswith("typing.Generic["):
+                    continue                  # no behaviour of their own that matters here
+                if top in ("typing", "enum", "collections", "dataclasses", "abc", "ctypes", "numbers"):
+                    # a base class from the standard library that gives the class its behaviour (NamedTuple, IntEnum ...):
+                    # without a model of it the analysis cannot say what instances do
+                    raise AnalysisError("unmodelled-stdlib", "class %s(%s) at %s" % (s.name, b.name, frame.where(s)))
         meta = None
         for k in s.keywords:
             if k.arg == "metaclass":
@@ -466,9 +481,24 @@ class Interp(OpsMixin, BuiltinsMixin):
             if isinstance(v, (dict, list, set, GenVal, Buf)):
                 self.origin_of[id(v)] = "%s.%s" % (cls.qualname, k)
                 self.mark_static(v, "%s.%s" % (cls.qualname, k))
+        if std_kind is not None:
+            self.finish_stdlib_class(cls, std_kind, s, ns, frame)
         if cls.metaclass is not None and isinstance(cls.metaclass, ClassVal):
             cls.injected = self.run_metaclass(cls.metaclass, cls, s, bases, ns, frame)
-        self.bind_name(s.name, cls, frame)
+        # __init_subclass__ of the nearest base that has one gets the new class and the class keywords
+        ckw = {k.arg: self.eval(k.value, frame) for k in s.keywords if k.arg not in (None, "metaclass")}
+        for b in cls.mro()[1:]:
+            isub = b.attrs.get("__init_subclass__") if isinstance(b, ClassVal) else None
+            if isinstance(isub, FuncVal):
+                self.call_function(isub, [cls], ckw, s, frame)
+                break
+        else:
+            if ckw and cls.metaclass is None:
+                raise PyRaise(Instance(self.bclasses["TypeError"], ("%s.__init_subclass__() takes no keyword arguments" % s.name,)), s, frame.where(s))
+        result = cls
+        for d in reversed(s.decorator_list):
+            result = self.apply_decorator(self.eval(d, frame), result, d, frame)
+        self.bind_name(s.name, result, frame)
 
     def run_metaclass(self, meta, cls, s, bases, ns, frame):
         """what the metaclass adds to a class it creates: its own __new__ (and __init__) are interpreted with the class
@@ -821,6 +851,7 @@ class Interp(OpsMixin, BuiltinsMixin):
         if items is not None:
             n = 0
             broke = False
+            endless = isinstance(items, TruncList) or getattr(it, "truncated", False)
             for x in items:
                 n += 1
                 if n > self.MAX_LOOP:
@@ -833,6 +864,9 @@ class Interp(OpsMixin, BuiltinsMixin):
                     break
                 except _Continue:
                     continue
+            if not broke and endless:
+                raise AnalysisError("unmodelled-stdlib", "a loop over an endless iterator runs past the %d items the model lays out at %s"
+                                    % (len(items), frame.where(s)))
             if not broke:
                 self.exec_block(s.orelse, frame)
             return
@@ -1105,7 +1139,9 @@ class Interp(OpsMixin, BuiltinsMixin):
     def call_function(self, f, args, kwargs, node, frame):
         if len(self.callstack) > self.MAX_DEPTH:
             raise AnalysisError("call-depth", f.qualname)
-        if sum(1 for q, _ in self.callstack if q == f.qualname) >= 3:
+        depth = sum(1 for q, _ in self.callstack if q == f.qualname)
+        if depth >= 3 and not (depth < 80 and all(self.is_static(x) for x in list(args) + list(kwargs.values()))):
+            # (a recursion over constants -- the bits of a mask, the items of a table -- is simply followed)
             self.event("recursion", func=f.qualname)
             return Unknown("recursion %s" % f.qualname)
         a = f.node.args
@@ -1238,6 +1274,9 @@ class Interp(OpsMixin, BuiltinsMixin):
         # Enum(...)  (metaclass: a subclass of type whose __new__ builds a type)
         if self.is_enum_class(cls):
             return self.make_enum(cls, args, kwargs, node, frame)
+        r = self.stdlib_instantiate(cls, args, kwargs, node, frame)
+        if r is not _NO:
+            return r
         inst = Instance(cls, tuple(args))
         init, owner = cls.lookup("__init__")
         if isinstance(init, FuncVal):
